@@ -39,7 +39,9 @@ def resize():
         res["broken"] = type(e._flags.broken).__name__ if e._flags.broken else None
         res["pids"] = sorted(e._processes)
     except BaseException as exc:
+        import traceback
         res["exc"] = f"{type(exc).__name__}: {exc}"[:300]
+        res["tb"] = [f"{f.filename.rsplit('/', 1)[-1]}:{f.lineno}:{f.name}" for f in traceback.extract_tb(exc.__traceback__)[-6:]]
 
 
 t0 = time.time()
